@@ -433,8 +433,14 @@ def rule_r4(chk, p, t):
             r.ok(clk_init.qualname + ":epochs", f"epochs inserted at `{unparse(good[0].target)} += self.dt_step`", clk_init.loc(good[0]))
         else:
             r.violation(clk_init.qualname + ":epochs", f"epoch-accumulation:{[unparse(n) for n in incs]}", "the pre-inserted epochs do not advance by `+= self.dt_step`", clk_init.loc())
-        incs = [n for n in walk_no_nested(tic.node) if isinstance(n, ast.AugAssign) and isinstance(n.op, ast.Add) and unparse(n.target) == "self.time"]
-        if any(unparse(n.value) == "self.dt_step" for n in incs):
+        from rsa.terms import NotEvaluable, falsy_param_states, path_states
+
+        try:
+            sts = falsy_param_states(path_states(tic), tic.params[1]) if len(tic.params) > 1 else path_states(tic)
+            vals = [unparse(s_["env"].get("self.time")) if s_["env"].get("self.time") is not None else None for s_ in sts]
+        except NotEvaluable:
+            vals = []
+        if vals and all(v == "self.time + self.dt_step" for v in vals):
             r.ok(tic.qualname, "time += dt_step", tic.loc())
         else:
             r.violation(tic.qualname, "tick-increment", "ticToc does not advance by `self.time += self.dt_step`", tic.loc())
